@@ -32,6 +32,7 @@
 
 //! Builder for decision table evaluators.
 
+use crate::errors::*;
 use dmntk_common::Result;
 use dmntk_feel::context::FeelContext;
 use dmntk_feel::values::{Value, Values};
@@ -261,6 +262,16 @@ impl EvaluatedDecisionTable {
 
 ///
 fn parse_decision_table(scope: &Scope, decision_table: &DecisionTable) -> Result<ParsedDecisionTable> {
+  // there must be at least one output clause and every rule must have exactly one entry for every clause
+  let (inputs, outputs) = (decision_table.input_clauses.len(), decision_table.output_clauses.len());
+  if outputs == 0 {
+    return Err(err_decision_table_without_output_clause());
+  }
+  for (i, rule) in decision_table.rules.iter().enumerate() {
+    if rule.input_entries.len() != inputs || rule.output_entries.len() != outputs {
+      return Err(err_invalid_number_of_rule_entries(i + 1, inputs, outputs));
+    }
+  }
   // parse input expressions and input values
   let mut input_expressions_and_values = vec![];
   for input_clause in &decision_table.input_clauses {
